@@ -1,5 +1,5 @@
 ------------------------------ MODULE C15_Judge ------------------------------
-EXTENDS C15_Linear, Json, IOUtils
+EXTENDS C15_Impl, Json, IOUtils
 VARIABLES blk, off
 Recs == ndJsonDeserialize(IOEnv.TRACE_FILE)
 BS == 16
@@ -12,8 +12,17 @@ Verdict(rec) ==
     IF rec.kind = "coeff"
     THEN JudgeCoeffs(rec.e, SeqToSet(rec.tgt), rec.tgt = << "ALL" >>, rec.res)
     ELSE JudgeSolve(rec.eqs, << "x", "y" >>, rec.res)
+\* drift: what the collector really returned against the transcription's prediction
+Drift(rec) ==
+    rec.kind = "coeff" /\ rec.res.r \in {"ok", "err"}
+    /\ LET names == SeqToSet(rec.tgt) all == rec.tgt = << "ALL" >> IN
+       Covered(rec.e, names, all)
+       /\ LET pr == CollectImpl(rec.e, names, all) IN
+          IF pr.r = "ok" THEN (rec.res.r # "ok" \/ rec.res.coeffs # pr.coeffs)
+          ELSE (rec.res.r # "err" \/ rec.res.v.e # pr.v.e)
 Report ==
     Idx <= Len(Recs) =>
       LET rec == Recs[Idx] v == Verdict(rec) IN
-      v = "OK" \/ PrintT(ToJson([id |-> rec.id, v |-> v]))
+      /\ (v = "OK" \/ PrintT(ToJson([id |-> rec.id, v |-> v])))
+      /\ (~Drift(rec) \/ PrintT(ToJson([id |-> rec.id, drift |-> "collect"])))
 =============================================================================
